@@ -1,6 +1,7 @@
 package main
 
 import (
+	"fmt"
 	"html"
 	"strings"
 
@@ -27,7 +28,9 @@ func runC07(cases string, res *Result) {
 	reg("inc", "{{ v|escape }}")
 	reg("include", "{% include 'inc' %}")
 	reg("cond", "{% if true %}{% for i in [1] %}{{ v|e }}{% endfor %}{% endif %}")
-	all := []string{"p_e", "p_escape", "chain", "apply", "macro", "include", "cond"}
+	reg("chainarg", "{{ v|default(dflt|trim|lower)|e }}")
+	reg("chainarg2", "{{ v|replace('@@NOPE@@', dflt|trim|upper|lower)|escape }}")
+	all := []string{"p_e", "p_escape", "chain", "apply", "macro", "include", "cond", "chainarg", "chainarg2"}
 	few := []string{"p_e", "p_escape"}
 
 	fbctx := twig.NewRenderContext(&twig.Environment{}, nil, nil)
@@ -82,8 +85,15 @@ func runC07(cases string, res *Result) {
 				res.add(Finding{Kind: "disagreement", Where: where, Case: c, Expected: hx(want), Observed: hx(got)})
 			}
 		}
-		ctx := map[string]interface{}{"v": in}
+		ctx := map[string]interface{}{"v": in, "dflt": "  ZZ  "}
+		if vk := c.str("vkind"); vk != "" {
+			ctx["v"] = c07Value(vk, in)
+			pos = []string{"p_e", "p_escape", "chain", "macro", "include", "cond"}
+		}
 		for _, p := range pos {
+			if (p == "chainarg") && in == "" {
+				continue // default() replaces the empty string: outside what this position is for
+			}
 			got, err := eng.Render(p, ctx)
 			check(p, exp, got, err)
 		}
@@ -91,6 +101,69 @@ func runC07(cases string, res *Result) {
 		check("fallback", expfb, got, err)
 	})
 	res.Exhaustive = []string{"exhaustive1", "exhaustive2"}
+}
+
+// values of other kinds whose text form is the given string
+type c07StrInt int
+type c07StrBool bool
+type c07StrFloat float64
+type c07StrStruct struct{ s string }
+type c07Named string
+type c07Err struct{ s string }
+
+var c07Text = map[int]string{}
+
+func (v c07StrInt) String() string    { return c07Text[int(v)] }
+func (v c07StrBool) String() string   { return c07Text[-1] }
+func (v c07StrFloat) String() string  { return c07Text[-2] }
+func (v c07StrStruct) String() string { return v.s }
+func (v *c07Err) Error() string       { return v.s }
+
+func c07Value(kind, text string) interface{} {
+	switch kind {
+	case "int":
+		n := 0
+		neg := false
+		for i := 0; i < len(text); i++ {
+			if text[i] == '-' {
+				neg = true
+			} else {
+				n = n*10 + int(text[i]-'0')
+			}
+		}
+		if neg {
+			n = -n
+		}
+		return n
+	case "bool":
+		return text == "true"
+	case "nil":
+		return nil
+	case "float":
+		var f float64
+		fmt.Sscanf(text, "%g", &f)
+		return f
+	case "stringer-int":
+		c07Text[7] = text
+		return c07StrInt(7)
+	case "stringer-bool":
+		c07Text[-1] = text
+		return c07StrBool(true)
+	case "stringer-float":
+		c07Text[-2] = text
+		return c07StrFloat(1.5)
+	case "stringer-struct":
+		return c07StrStruct{text}
+	case "ptr-stringer":
+		return &c07StrStruct{text}
+	case "error":
+		return &c07Err{text}
+	case "bytes":
+		return []byte(text)
+	case "named-string":
+		return c07Named(text)
+	}
+	return text
 }
 
 // refDecode decodes exactly &amp; &lt; &gt; &#34; &#39; &quot; (independent re-implementation).
